@@ -61,25 +61,31 @@ def corpus():
 
 
 def mt_runs(ck, tier):
-    """two real threads, grow/shrink storms; returns (failure text or None, info)"""
-    n = {'plain': 150000, 'tsan': 25000, 'asan': 40000} if tier == 'quick' else {'plain': 5000000, 'tsan': 600000, 'asan': 1000000}
+    """two real threads, grow/shrink storms; returns (failure text or None, info).
+    kinds: plain (threads on different cores), pinned (same binary, both threads on one CPU, busy polling: timer preemption
+    at arbitrary instructions opens the few-instruction windows of prepare_read), tsan, asan"""
+    quick = tier == 'quick'
+    n = {'plain': 150000, 'pinned': 400000, 'tsan': 25000, 'asan': 40000} if quick else {'plain': 5000000, 'pinned': 20000000, 'tsan': 600000, 'asan': 1000000}
+    flags = {'plain': [], 'pinned': [], 'tsan': ['-fsanitize=thread'], 'asan': ['-fsanitize=address']}
     info = {}
-    for kind, fl in (('plain', []), ('tsan', ['-fsanitize=thread']), ('asan', ['-fsanitize=address'])):
-        exe, err = ck.build_harness('uq_mt_' + kind, ['uq_mt.cpp'], flags=fl, san=False)
+    for kind in ('plain', 'pinned', 'tsan', 'asan'):
+        exe, err = ck.build_harness('uq_mt_' + ('plain' if kind == 'pinned' else kind), ['uq_mt.cpp'], flags=flags[kind], san=False)
         if not exe:
             return 'uq_mt.cpp (%s) does not compile against /repo: %s' % (kind, err[-300:]), None
         runs = []
-        confs = ((64, 65536, 1), (256, 3000, 2), (1024, 16384, 3)) if tier == 'quick' else ((64, 65536, 1), (256, 3000, 2), (1024, 16384, 3), (16, 1024, 4), (4096, 40000, 5))
+        confs = ((64, 65536, 1), (256, 3000, 2), (1024, 16384, 3)) if quick else ((64, 65536, 1), (256, 3000, 2), (1024, 16384, 3), (16, 1024, 4), (4096, 40000, 5))
         for initial, maxc, seed in confs:
             env = dict(os.environ, TSAN_OPTIONS='halt_on_error=1:exitcode=66', ASAN_OPTIONS='detect_leaks=0:exitcode=99')
-            rc, so, se = sh([exe, str(initial), str(maxc), str(n[kind]), str(seed + ck.seed)], timeout=240, env=env)
+            args = [str(initial), str(maxc), str(n[kind]), str(seed + ck.seed)] + (['1'] if kind == 'pinned' else [])
+            rc, so, se = sh([exe] + args, timeout=40 if quick else 400, env=env)
             runs.append((initial, maxc, seed + ck.seed, rc, so.strip()[:60]))
             if rc != 0 or not so.startswith('OK'):
                 m = re.search(r'(WARNING: ThreadSanitizer: [^\n]+|ERROR: AddressSanitizer: [^\n]+)', se or '')
                 loc = re.findall(r'#\d+ [^\n]*UnboundedSPSCQueue[^\n]*', se or '')[:3]
                 return ('two-thread grow/shrink run (%s) initial=%d max=%d records=%d seed=%d: rc=%s %s %s %s'
-                        % (kind, initial, maxc, n[kind], seed + ck.seed, rc, so.strip()[:80], m.group(1) if m else (se or '')[-200:], ' | '.join(x.strip() for x in loc))), \
-                       {'harness': 'harness/uq_mt.cpp', 'build': kind, 'args': [initial, maxc, n[kind], seed + ck.seed]}
+                        % (kind, initial, maxc, n[kind], seed + ck.seed, rc, so.strip()[:80] or ('no answer within the time limit' if rc == 'TIMEOUT' else ''),
+                           m.group(1) if m else (se or '')[-200:], ' | '.join(x.strip() for x in loc))), \
+                       {'harness': 'harness/uq_mt.cpp', 'build': kind, 'args': [int(a) for a in args]}
         info[kind] = runs
     return None, info
 
@@ -99,9 +105,16 @@ def run(tier):
         ck.violation('no-failing-input-found', 'harness uq.cpp does not compile against /repo: ' + err[-600:]); return ck.finish(trusted=TRUSTED)
     n = 1500 if tier == 'quick' else 50000
     fl = flags_from(facts)
-    cases = corpus() + U.boundary_cases() + [U.gen_case(ck.rng) for _ in range(n)] + [U.gen_cycle(ck.rng) for _ in range(n // 4)]
-    cases = [with_flags(c, fl) for c in cases]
-    ml = ck.run_model(mexe, cases); il = ck.run_impl(iexe, cases)
+    first = [with_flags(c, fl) for c in corpus() + U.boundary_cases()]
+    cases = first + [with_flags(c, fl) for c in [U.gen_case(ck.rng) for _ in range(n)] + [U.gen_cycle(ck.rng) for _ in range(n // 4)]]
+    il = ck.run_impl(iexe, first)
+    if sum(1 for l in il if l.startswith(('CRASH', 'HANG'))) >= 3:
+        # the implementation dies on the corpus already: every further case would cost a process of its own
+        ck.notes.append('implementation crashes/hangs on %d of the %d corpus and boundary cases; generated cases skipped' % (sum(1 for l in il if l.startswith(('CRASH', 'HANG'))), len(first)))
+        cases = first
+    else:
+        il = il + ck.run_impl(iexe, cases[len(first):])
+    ml = ck.run_model(mexe, cases)
 
     def shrink(case, mode):
         hdr, ops = U.parse(case)
@@ -149,8 +162,9 @@ def replay(path):
     if not isinstance(c, str):
         print('replay:', json.dumps(d, indent=1)[:3000])
         if isinstance(c, dict) and c.get('harness') == 'harness/uq_mt.cpp':
-            fl = {'plain': [], 'tsan': ['-fsanitize=thread'], 'asan': ['-fsanitize=address']}[c.get('build', 'plain')]
-            exe, _ = ck.build_harness('uq_mt_' + c.get('build', 'plain'), ['uq_mt.cpp'], flags=fl, san=False)
+            b = c.get('build', 'plain')
+            fl = {'plain': [], 'pinned': [], 'tsan': ['-fsanitize=thread'], 'asan': ['-fsanitize=address']}[b]
+            exe, _ = ck.build_harness('uq_mt_' + ('plain' if b == 'pinned' else b), ['uq_mt.cpp'], flags=fl, san=False)
             rc, so, se = sh([exe] + [str(x) for x in c['args']], timeout=300, env=dict(os.environ, TSAN_OPTIONS='halt_on_error=1:exitcode=66', ASAN_OPTIONS='detect_leaks=0:exitcode=99'))
             print('rc', rc, so.strip()[:200]); print((se or '')[:3000])
             return 0 if (rc == 0 and so.startswith('OK')) else 1
